@@ -286,10 +286,13 @@ def move_prev_char(text: str | bytes, start_offs: int, end_offs: int) -> int:
     if not isinstance(text, bytes):
         raise TypeError(text)
     if _byte_encoding == "utf8":
+        # only a well-formed sequence that ends exactly at end_offs is one character (as decode_one sees it)
         o = end_offs - 1
-        while o > start_offs and text[o] & 0xC0 == 0x80:
+        while o > start_offs and end_offs - o < 4 and text[o] & 0xC0 == 0x80:
             o -= 1
-        return o
+        if decode_one(text, o)[1] == end_offs:
+            return o
+        return end_offs - 1
     if _byte_encoding == "wide" and within_double_byte(text, start_offs, end_offs - 1) == 2:
         return end_offs - 2
     return end_offs - 1
@@ -306,9 +309,10 @@ def move_next_char(text: str | bytes, start_offs: int, end_offs: int) -> int:
     if not isinstance(text, bytes):
         raise TypeError(text)
     if _byte_encoding == "utf8":
-        o = start_offs + 1
-        while o < end_offs and text[o] & 0xC0 == 0x80:
-            o += 1
+        # a sequence that is not well-formed within the range is one character per byte (as decode_one sees it)
+        o = decode_one(text, start_offs)[1]
+        if o > end_offs:
+            return start_offs + 1
         return o
     if _byte_encoding == "wide" and within_double_byte(text, start_offs, start_offs) == 1:
         return start_offs + 2
